@@ -232,11 +232,16 @@ def plan(tier):
     if tier == "thorough":
         members = [d1, d2, fw, dict(base, name="m-routed-d0", masking=True, dur=0),
                    dict(base, name="m-fw-d2", masking=True, dur=2, topo="firewall", flatten=True)]
+        # sized for about 30 minutes on 16 cores: every level that was started is completed, a time budget only stops the
+        # search between levels (reported as a cap)
         for v in members:
             cfg = HE.gen_scenario(v)
-            P.append((v["name"], cfg, "bfs", dict(depth=2, budget=150000, variant=v)))
-            P.append((v["name"] + "-r", cfg, "bfs", dict(depth=3, budget=150000, reduced=True, variant=v)))
-            P.append((v["name"], cfg, "dev", dict(H=9, k=2, variant=v, reduced=True)))
+            P.append((v["name"] + "-r", cfg, "bfs", dict(depth=3, budget=150000, reduced=True, variant=v, time=240)))
+            P.append((v["name"], cfg, "dev", dict(H=8, k=1, variant=v)))
+        for v in (d2, fw):
+            cfg = HE.gen_scenario(v)
+            P.append((v["name"], cfg, "bfs", dict(depth=2, budget=150000, variant=v, time=600)))
+        P.append((d2["name"] + "-k2", HE.gen_scenario(d2), "dev", dict(H=7, k=2, variant=d2, reduced=True)))
         return P
     P.append((d2["name"], HE.gen_scenario(d2), "bfs", dict(depth=2, budget=150000, reduced=True, variant=d2)))
     P.append((fw["name"], HE.gen_scenario(fw), "bfs", dict(depth=1, budget=150000, variant=fw)))
